@@ -423,7 +423,12 @@ class TimeDelta:
         elif isinstance(value, Decimal):
             with decimal.localcontext() as ctx:
                 ctx.prec = _DECIMAL_DIGITS
-                return self.__class__(self.precision_total_seconds() * value)
+                try:
+                    seconds = self.precision_total_seconds() * value
+                except decimal.Overflow:
+                    # The product exceeds the Decimal exponent range: far out of range for TimeDelta.
+                    raise OverflowError("The product is out of range.") from None
+                return self.__class__(seconds)
         else:
             return NotImplemented
 
